@@ -108,6 +108,8 @@ fn probe_contexts() -> (Ctx, Ctx) {
     m.funs.insert("f".into(), FnModel::Nested);
     m.funs.insert("t".into(), FnModel::IntMap);
     m.funs.insert("nest".into(), FnModel::Nested);
+    // a function named like the variable `a` that passes on the unknown-function error of something it evaluated
+    m.funs.insert("a".into(), FnModel::FailNotFound("typeof"));
     let c1 = api::ctx_from_model(&m, &log);
     let mut m2 = Model::new();
     m2.builtins_off = true;
